@@ -34,6 +34,7 @@ AsmOk(r) ==
           /\ r.ws[k].do = Join(r.ws[k].tok)                         \* joined-text form = tokens joined by 4 spaces
           /\ r.cs[k].text = r.ws[k].do /\ r.cs[k].ret = Len(r.ws[k].do) /\ r.cs[k].need = e    \* C binding
           /\ e = 0 => r.ws[k].tok = r.tok                            \* without a second word the text does not depend on it
+          /\ r.ws[k].x = 0 => r.ws[k].tok = r.tok                    \* the same question gets the same answer (annotated renderings are asked in between)
 
 Min(a, b) == IF a <= b THEN a ELSE b
 CBufOk(r) ==
